@@ -11,6 +11,9 @@ SRC = {  # source values by class: (typed value injected as `src`)
     "str": [tv_str("hello"), tv_str("")],
     "bool": [tv_bool(True), tv_bool(False)],
 }
+# integers that a float64 cannot carry exactly: a store between the signed and unsigned classes must not pass through one
+BIG = {"int": [tv_int("i64", z) for z in (2 ** 53 + 1, 2 ** 63 - 1, -(2 ** 53) - 1, 1234567890123456789)],
+       "uint": [tv_int("u64", z) for z in (2 ** 53 + 1, 2 ** 63 - 1, 2 ** 64 - 1, 8765432109876543211)]}
 FIELD_PATHS = ["h.I8", "h.I32", "h.I64", "h.U8", "h.U64", "h.F32", "h.F64", "h.S", "h.B",
                "h.Sub.N", "h.Sub.F", "h.Sub.S", "h.Sub.U8", "h.PSub.N", "h.PSub.F", "h.PSub.U8"]
 
@@ -55,7 +58,8 @@ def make_cases(rng, tier):
     # (1) writes to struct fields, one and two levels, every source class x every target
     for path in FIELD_PATHS:
         for cls, vals in SRC.items():
-            for v in (vals if tier != "quick" else rng.sample(vals, min(4, len(vals)))):
+            big = BIG.get(cls, [])
+            for v in (vals + big if tier != "quick" else rng.sample(vals, min(4, len(vals))) + rng.sample(big, min(1, len(big)))):
                 if not in_domain(path.split(".")[-1], cls, v):
                     continue
                 add(block([assign(("var", path), "=", ("math", mvar("src")))], rd(path)), [host(), inj_val("src", v)])
@@ -65,7 +69,8 @@ def make_cases(rng, tier):
     # (2) pointer-injected scalars of every kind x every source class
     for t in INT_T + UINT_T + FLOAT_T + ["s", "b"]:
         for cls, vals in SRC.items():
-            for v in (vals if tier != "quick" else rng.sample(vals, min(3, len(vals)))):
+            big = BIG.get(cls, [])
+            for v in (vals + big if tier != "quick" else rng.sample(vals, min(3, len(vals))) + rng.sample(big, min(1, len(big)))):
                 if t == "f32" and cls in ("int", "uint", "float") and not f32_exact(v):
                     continue
                 add(block([assign(("var", "p"), "=", ("math", mvar("src")))]), [inj_ptr("p", zero_tv(t)), inj_val("src", v)])
@@ -144,6 +149,9 @@ def make_cases(rng, tier):
     add(block([assign(("var", "a"), "=", ("math", mint(5)))], rd("a")), [inj_val("a", tv_int("i64", 1))])
     add(block([assign(("var", "p"), ":=", ("math", mint(5))), assign(("var", "p2"), "=", ("math", mint(6)))], rd("p2")), [inj_ptr("p", tv_int("i16", 1))])
     add(block([assign(("var", "Mark"), "=", ("math", mint(5))), scall(call("func", "Mark", [("const", kint(2))]))]), [inj_func("Mark")])
+    # a local bound to a pointer into the host and then re-assigned is rebound; the host cell is not written
+    add(block([assign(("var", "v"), "=", ("math", matom(acall(call("method", "h.Slot", []))))), assign(("var", "v"), "=", ("math", mint(42)))], rd("h.I64")), [host()])
+    add(block([assign(("var", "v"), "=", ("math", matom(acall(call("method", "h.Slot", []))))), assign(("var", "v"), "=", ("math", mint(42)))], rd("v")), [host()])
     # reads of missing things
     add(block([], rd("h.Nope")), [host()])
     add(block([], rd("nope")), [host()])
